@@ -125,8 +125,11 @@ func (se *SessionExecutor) doMultiStmts(reqCtx *util.RequestContext, sql string)
 	}
 
 	//multi-query
+	// every piece is checked against the blacklist with its own fingerprint;
+	// the metrics of the whole packet keep the fingerprint of the packet
+	defer setContextSQLFingerprint(reqCtx, sql)
 	for index, piece := range piecesSql {
-		setContextSQLFingerprint(reqCtx, sql)
+		setContextSQLFingerprint(reqCtx, piece)
 		r, errRet = se.doQuery(reqCtx, piece)
 		if errRet != nil {
 			return nil, errRet
